@@ -3,13 +3,13 @@ From Coq Require Import List NArith String.
 Import ListNotations.
 From WC.Gen Require Import Consts.
 
-Lemma pin_glob_u_RE_PATHLIB_DOT_NORM_0 : ReSrc.glob_u_RE_PATHLIB_DOT_NORM_0 = [40; 63; 58; 40; 40; 63; 60; 61; 94; 41; 124; 40; 63; 60; 61; 47; 41; 41; 92; 46; 40; 63; 58; 47; 124; 36; 41; 41; 43]%N.
+Lemma pin_glob_u_RE_PATHLIB_DOT_NORM_0 : ReSrc.glob_u_RE_PATHLIB_DOT_NORM_0 = [40; 63; 58; 40; 40; 63; 60; 61; 94; 41; 124; 40; 63; 60; 61; 47; 41; 41; 92; 46; 40; 63; 58; 47; 124; 92; 90; 41; 41; 43]%N.
 Proof. reflexivity. Qed.
-Lemma pin_glob_u_RE_PATHLIB_DOT_NORM_1 : ReSrc.glob_u_RE_PATHLIB_DOT_NORM_1 = [40; 63; 58; 40; 40; 63; 60; 61; 94; 41; 124; 40; 63; 60; 61; 47; 41; 41; 92; 46; 40; 63; 58; 47; 124; 36; 41; 41; 43]%N.
+Lemma pin_glob_u_RE_PATHLIB_DOT_NORM_1 : ReSrc.glob_u_RE_PATHLIB_DOT_NORM_1 = [40; 63; 58; 40; 40; 63; 60; 61; 94; 41; 124; 40; 63; 60; 61; 47; 41; 41; 92; 46; 40; 63; 58; 47; 124; 92; 90; 41; 41; 43]%N.
 Proof. reflexivity. Qed.
-Lemma pin_glob_u_RE_WIN_PATHLIB_DOT_NORM_0 : ReSrc.glob_u_RE_WIN_PATHLIB_DOT_NORM_0 = [40; 63; 58; 40; 40; 63; 60; 61; 94; 41; 124; 40; 63; 60; 61; 91; 92; 92; 47; 93; 41; 41; 92; 46; 40; 63; 58; 91; 92; 92; 47; 93; 124; 36; 41; 41; 43]%N.
+Lemma pin_glob_u_RE_WIN_PATHLIB_DOT_NORM_0 : ReSrc.glob_u_RE_WIN_PATHLIB_DOT_NORM_0 = [40; 63; 58; 40; 40; 63; 60; 61; 94; 41; 124; 40; 63; 60; 61; 91; 92; 92; 47; 93; 41; 41; 92; 46; 40; 63; 58; 91; 92; 92; 47; 93; 124; 92; 90; 41; 41; 43]%N.
 Proof. reflexivity. Qed.
-Lemma pin_glob_u_RE_WIN_PATHLIB_DOT_NORM_1 : ReSrc.glob_u_RE_WIN_PATHLIB_DOT_NORM_1 = [40; 63; 58; 40; 40; 63; 60; 61; 94; 41; 124; 40; 63; 60; 61; 91; 92; 92; 47; 93; 41; 41; 92; 46; 40; 63; 58; 91; 92; 92; 47; 93; 124; 36; 41; 41; 43]%N.
+Lemma pin_glob_u_RE_WIN_PATHLIB_DOT_NORM_1 : ReSrc.glob_u_RE_WIN_PATHLIB_DOT_NORM_1 = [40; 63; 58; 40; 40; 63; 60; 61; 94; 41; 124; 40; 63; 60; 61; 91; 92; 92; 47; 93; 41; 41; 92; 46; 40; 63; 58; 91; 92; 92; 47; 93; 124; 92; 90; 41; 41; 43]%N.
 Proof. reflexivity. Qed.
 Lemma pin_glob_u_RE_PATHLIB_DOT_NORM_0_flags : ReSrc.glob_u_RE_PATHLIB_DOT_NORM_0_flags = ""%string.
 Proof. reflexivity. Qed.
